@@ -878,7 +878,7 @@ type gobCase struct {
 }
 
 func genGobCase(t *rapid.T) gobCase {
-	shape := rapid.SampledFrom([]string{"small", "small", "wide", "wide", "manynodes", "manywords", "mixed", "boundarycount"}).Draw(t, "shape")
+	shape := rapid.SampledFrom([]string{"small", "small", "wide", "wide", "manynodes", "manynodes", "chain", "manywords", "mixed", "boundarycount"}).Draw(t, "shape")
 	set := map[word]bool{}
 	alpha := []byte{'a', 'b', 'c'}
 	switch shape {
@@ -907,9 +907,22 @@ func genGobCase(t *rapid.T) gobCase {
 		}
 	case "manynodes":
 		// >= 128 distinct nodes: long words with distinct tails
-		n := rapid.IntRange(20, sz(60, 200)).Draw(t, "n")
+		n := rapid.IntRange(20, sz(120, 300)).Draw(t, "n")
 		for i := 0; i < n; i++ {
 			set[word(fmt.Sprintf("%c%03d%s", 'a'+byte(i%3), i, string(genWordOver(t, alpha, 3))))] = true
+		}
+	case "chain":
+		// one long word: a path of L+1 nodes, L+1 at and around 64, 128, 192, 256 (node indices that need a second byte);
+		// optionally a few shorter words branching off it
+		L := rapid.SampledFrom([]int{62, 63, 64, 65, 126, 127, 128, 129, 130, 190, 191, 192, 193, 254, 255, 256, 257, 300}).Draw(t, "L")
+		long := make([]byte, L)
+		for i := range long {
+			long[i] = alpha[(i*i+i/3)%3]
+		}
+		set[word(long)] = true
+		for k := rapid.IntRange(0, 3).Draw(t, "branches"); k > 0; k-- {
+			at := rapid.IntRange(0, L-1).Draw(t, "at")
+			set[word(long[:at])+"z"+genWordOver(t, alpha, 2)] = true
 		}
 	case "manywords":
 		// few nodes, many words: all words over {a,b} of length <= L, optionally thinned
